@@ -117,34 +117,24 @@ theorem result_legal (E : Env) (k : Kind) (cfg : Cfg) (name : List Char) (excl :
     simp only [effExcl, if_true]
     exact List.mem_append_left _ hx
 
-/-- `mro` (the one public attribute of `enum.Enum` that a member name can collide with) is reserved at EVERY
-call site of the enum resolver: either the resolver adds it to the excludes by itself or the caller's set holds it
-from the start. Both are read off the source (`Dcg.Gen.EnumSites`: the `excludes=` expression of
-`EnumFieldNameResolver.get_valid_name`, the initial value of the excludes set in every function that calls
-`get_valid_field_name(…, model_type=ModelType.ENUM)`), and every caller has the reviewed loop shape (passes that
-set, adds each result to it). -/
-theorem enum_callers_reserve_mro :
-    Dcg.Gen.EnumSites.resolverRecognised = true ∧
-    ∀ s ∈ Dcg.Gen.EnumSites.sites, s.recognised = true ∧ s.passesSet = true ∧ s.addsResult = true ∧
-      mro ∈ Dcg.Gen.EnumSites.resolverExcludes ++ s.init := by
-  decide
-
-/-- FULL STRENGTH for enum members: at every call site (`excl` holds at least what the site's set holds from
-the start) the name returned by the enum resolver is not `mro`. -/
+/-- FULL STRENGTH for enum members, relative to the call: when `mro` (the one public attribute of `enum.Enum` a
+member name can collide with) is reserved for the call — by the resolver itself (`resolverExcludes`) or by the
+excludes the caller passes — the name returned by the enum resolver is not `mro`. That the hypothesis holds at
+EVERY call site of the enum resolver is the obligation `enum_call_sites_reviewed` of Props/C09 (the initial
+excludes of each caller are read off the source). -/
 theorem enum_member_never_mro (E : Env) (cfg : Cfg) (name : List Char) (excl : List (List Char))
     (ign uc : Bool) (hp : PrefixOK cfg) (hE : CaseOK E) (r : List Char)
-    (s : Dcg.Gen.EnumSites.Site) (hs : s ∈ Dcg.Gen.EnumSites.sites) (hsub : ∀ x ∈ s.init, x ∈ excl)
+    (hres : mro ∈ Dcg.Gen.EnumSites.resolverExcludes ++ excl)
     (h : getValidName E .enum cfg name excl ign uc = .ok r) : r ≠ mro := by
   have hl := result_legal E .enum cfg name excl ign uc hp hE r h
-  have hm := (enum_callers_reserve_mro.2 s hs).2.2.2
-  rcases List.mem_append.mp hm with hm | hm
+  rcases List.mem_append.mp hres with hm | hm
   · exact hl.2.2.2 rfl mro hm
   · intro heq
-    exact hl.2.2.1 (heq ▸ hsub mro hm)
+    exact hl.2.2.1 (heq ▸ hm)
 
-/-- non-vacuity: there are call sites, and `MRO` under snake case (sanitised: `mro`) gets a number at one of them -/
-example : Dcg.Gen.EnumSites.sites ≠ [] ∧
-    getValidName pyEnv .enum { snakeCase := true } ['M', 'R', 'O'] [] false false = .ok ['m', 'r', 'o', '_', '1'] := by
+/-- non-vacuity: `MRO` under snake case sanitises to `mro`; with `mro` reserved for the call it gets a number -/
+example : mro ∈ Dcg.Gen.EnumSites.resolverExcludes ++ [mro] ∧
+    getValidName pyEnv .enum { snakeCase := true } ['M', 'R', 'O'] [mro] false false = .ok ['m', 'r', 'o', '_', '1'] := by
   decide +kernel
 
 /-- non-vacuity and a sanity check on a nasty input: `"___"` with `remove_special_field_name_prefix`
